@@ -1088,6 +1088,10 @@ def evaluate(ctx, cases):
                 ctx.hist("manifest:mixed-flavors")
         elif kind == "taglist":
             ctx.hist("taglist:%s" % ("clean" if clean_taglist(c) else "dirty"))
+            if c["tag"] in ODD_TAGS:
+                ctx.hist("taglist:odd-tag")
+            if "readTag" in c:
+                ctx.hist("taglist:reader-expects-another-tag")
         elif kind == "mapseq":
             ctx.hist("mapseq:%s" % c["style"])
             invs = [r for o, r in zip(c["ops"], io_["out"]) if o["op"] == "inverse"]
@@ -1166,20 +1170,25 @@ def enum_mappings():
     return out
 
 
-def run(ctx):
-    cases = corpus_cases()
-    ctx.hist("corpus", len(cases))
-    evaluate(ctx, cases)
-    en = enum_mappings()
-    ctx.hist("enumerated-mappings", len(en))
-    evaluate(ctx, en)
-    for kind, n in (("manifest", ctx.n(3000, 60000)), ("taglist", ctx.n(1500, 30000)), ("mapping", ctx.n(2000, 40000)), ("mapseq", ctx.n(1500, 30000)),
-                    ("remap", ctx.n(2000, 40000)), ("server", ctx.n(1200, 25000))):
-        done = 0
-        while done < n and not ctx.out_of_time():
-            k = min(600, n - done)
+QUICK = [("manifest", 3000, 600), ("taglist", 1500, 500), ("mapping", 2000, 500), ("mapseq", 1500, 500), ("remap", 2000, 500),
+         ("server", 1200, 400)]
+THOROUGH = [("manifest", 60000, 600), ("taglist", 30000, 600), ("mapping", 40000, 600), ("mapseq", 30000, 600),
+            ("remap", 40000, 600), ("server", 25000, 600)]
+
+
+def run_stream(ctx, budget):
+    """Round-robin over the case classes: every class gets a slice per round, so that a time limit starves none of them."""
+    done = {k: 0 for k, _, _ in budget}
+    while not ctx.out_of_time() and any(done[k] < n for k, n, _ in budget):
+        for kind, n, batch in budget:
+            if done[kind] >= n or ctx.out_of_time():
+                continue
+            k = min(batch, n - done[kind])
             evaluate(ctx, [GEN[kind](ctx.rng) for _ in range(k)])
-            done += k
+            done[kind] += k
+
+
+def check_floors(ctx):
     h = ctx.histogram
     if h.get("manifest:clean", 0) < 0.5 * max(1, h.get("kind=manifest", 0)):
         raise common.InfraError("degenerate distribution: %d clean manifests" % h.get("manifest:clean", 0))
@@ -1195,8 +1204,26 @@ def run(ctx):
     if h.get("remap:dummy-declared", 0) < 15:
         raise common.InfraError("degenerate distribution: the dummy branch of remapEntries declared a product in %d cases"
                                 % h.get("remap:dummy-declared", 0))
+    if h.get("taglist:odd-tag", 0) < 50:
+        raise common.InfraError("degenerate distribution: %d tag lists whose tag holds a regular-expression metacharacter"
+                                % h.get("taglist:odd-tag", 0))
     if h.get("manifest:mixed-flavors", 0) < 0.3 * max(1, h.get("kind=manifest", 0)):
         raise common.InfraError("degenerate distribution: %d manifests with mixed flavors" % h.get("manifest:mixed-flavors", 0))
+
+
+def run(ctx):
+    """The ordinary quick portion first and completely - corpus, the enumerated mappings, the generated stream of every
+    class, the distribution floors - and only then whatever the thorough tier (or an escalated quick run) adds."""
+    cases = corpus_cases()
+    ctx.hist("corpus", len(cases))
+    evaluate(ctx, cases)
+    en = enum_mappings()
+    ctx.hist("enumerated-mappings", len(en))
+    evaluate(ctx, en)
+    run_stream(ctx, QUICK)
+    check_floors(ctx)
+    if ctx.tier == "thorough" or ctx.escalated:
+        run_stream(ctx, [(k, n - dict((a, b) for a, b, _ in QUICK)[k], batch) for k, n, batch in THOROUGH])
 
 
 def replay(ctx, rp):
